@@ -1161,6 +1161,37 @@ C15_THEOREMS = ["Acv.C15.expand_rename", "Acv.C15.expand_total_on_grammar", "Acv
                 "Acv.C03.severity_is_level", "Acv.C06.insertAll_perm", "Acv.C07.var_names_distinct"]
 
 
+PARSER_THEOREMS = ["Acv.ProfileParser.get_is_first_match", "Acv.ProfileParser.get_eq_some_iff", "Acv.ProfileParser.get_eq_none_iff", "Acv.ProfileParser.get_perm",
+                   "Acv.ProfileParser.validation_key_order", "Acv.ProfileParser.expression_key_order_deep", "Acv.ProfileParser.expression_key_order",
+                   "Acv.ProfileParser.key_order_under", "Acv.ProfileParser.key_order_under_connective",
+                   "Acv.ProfileParser.precedence", "Acv.ProfileParser.precedence_propertyConstraints", "Acv.ProfileParser.precedence_rego", "Acv.ProfileParser.precedence_regoModule",
+                   "Acv.ProfileParser.precedence_and", "Acv.ProfileParser.precedence_or", "Acv.ProfileParser.precedence_not", "Acv.ProfileParser.precedence_if",
+                   "Acv.ProfileParser.no_known_key_is_error", "Acv.ProfileParser.if_without_then_is_error",
+                   "Acv.ProfileParser.pev_fresh", "Acv.ProfileParser.variables_fresh", "Acv.ProfileParser.pev_boundVars_nodup",
+                   "Acv.ProfileParser.negate_negate", "Acv.ProfileParser.negate_no_negated_connective", "Acv.ProfileParser.parseExpression_no_negated_connective",
+                   "Acv.ProfileParser.not_a_map_is_error", "Acv.ProfileParser.missing_validations_is_error", "Acv.ProfileParser.missing_profile_name_is_error",
+                   "Acv.ProfileParser.undefined_names_skipped", "Acv.ProfileParser.only_undefined_names", "Acv.ProfileParser.level_not_a_list",
+                   "Acv.ProfileParser.fuel_never_exhausted", "Acv.ProfileParser.parseProfile_fuel_irrelevant"]
+
+
+def cmp_parse(case, i, m):
+    """the hand-written model of the profile parser (Acv/Model/ProfileParser.lean) against the real parser, on the YAML node tree
+    yaml.v3 produced for the text: same outcome (parsed / rejected; the error text is not modelled), same parsed structure (rules, variables, negation flags, levels, prefixes)"""
+    if "error" in m and "outcome" not in m:
+        return ("~model-error", "model driver rejected the case: " + m["error"])
+    if i.get("outcome") == "panic":
+        return ("~parser-panic", f"the real profile parser panicked on {case['profile'][:120]!r}: {str(i.get('err'))[:160]}")
+    if m["outcome"] == "unsupported":
+        return False      # a !!float argument: strconv.ParseFloat / %f are not modelled
+    if case.get("tree") is None:
+        return None if i.get("outcome") == "error" else ("~parse", "no YAML tree for the text, yet the real parser did not reject it")
+    if m["outcome"] != i.get("outcome"):
+        return ("~parse", f"{case['kind']} profile {case['profile'][:160]!r}: real parser {i.get('outcome')} ({str(i.get('err'))[:120]}), parser model {m['outcome']} ({str(m.get('err'))[:120]})")
+    if m["outcome"] == "ok" and m.get("dump") != i.get("dump"):
+        return ("~parse", f"{case['kind']} profile {case['profile'][:200]!r}: the parsed structure differs from the parser model's")
+    return None
+
+
 def cmp_c15(case, i, m):
     if "error" in m:
         return ("~model-error", "model driver rejected the case: " + m["error"])
@@ -1189,21 +1220,30 @@ def check_C15(ctx):
     except Broken as b:
         return conclude(ctx, [b])
     broken += prove(ctx, "Acv.Props.C15", C15_THEOREMS)
+    broken += prove(ctx, "Acv.Props.ProfileParser", PARSER_THEOREMS)
     try:
         corr(ctx, "c15", 150 if ctx.quick() else 4000, cmp_c15)
         ctx.oblige("correspondence:meaning-preserving rewrites of the YAML text give the same results (and the model's)", not ctx.violations)
     except Broken as b:
         broken.append(b)
+    try:
+        nb = len(ctx.breaks) if hasattr(ctx, "breaks") else 0
+        corr(ctx, "parse", 300 if ctx.quick() else 6000, cmp_parse)
+        ctx.oblige("correspondence:real profile parser vs the parser model (accepted or rejected, parsed structure) on fixtures, generated, mutated, conflicting-key and hostile profiles",
+                   (len(ctx.breaks) if hasattr(ctx, "breaks") else 0) == nb)
+    except Broken as b:
+        broken.append(b)
     ctx.coverage["rule"] = ("random profiles of the full declarative language; spelling A canonical; spelling B: every mapping (top level, prefixes, validations, propertyConstraints, constraint keys, if/then/else, count/validation), "
                             "level list and and/or operand list shuffled, conjunctions merged into one propertyConstraints map, block/flow style, plain/single/double quoting, comments, blank lines, indentation 2 or 4; "
-                            "spelling C: additionally every compact IRI uses one of three prefixes (incl. `_` and `-`) bound to the same namespace; all on the same graph")
+                            "spelling C: additionally every compact IRI uses one of three prefixes (incl. `_` and `-`) bound to the same namespace; all on the same graph. "
+                            "Parser stream: the repository's fixture profiles, generated profiles, their structural mutations (duplicated and conflicting keys, wrongly typed values), and hostile texts; the real parser's dump (verif hook DumpProfile) against the parser model run on yaml.v3's node tree")
     ctx.assumptions += ["yaml.v3 maps the style variants to the same node tree (kind, tag, value): dependency, observed only"]
     return conclude(ctx, broken, trusted=TRUST_COMMON)
 
 
 # ------------------------------------------------------------------ replay
 
-REPLAY_CMP = {"c01": cmp_c01, "c02": cmp_c02, "c03": cmp_c03, "c13": cmp_c13, "c14": cmp_c14, "c15": cmp_c15, "c16": cmp_c16, "c08": cmp_c08,
+REPLAY_CMP = {"parse": cmp_parse, "c01": cmp_c01, "c02": cmp_c02, "c03": cmp_c03, "c13": cmp_c13, "c14": cmp_c14, "c15": cmp_c15, "c16": cmp_c16, "c08": cmp_c08,
               "c07": cmp_c07, "fuzz": cmp_fuzz, "hist": cmp_hist}
 
 
